@@ -49,6 +49,14 @@ def c15(ctx):
              "when Iterator::all(char::is_lowercase) holds over the characters of all fields")
     rep.rule("C15.R3", "keywords: KEYWORDS is read only in match_keyword, by one HashMap::get whose key is str::to_lowercase of the word on every "
              "path; scan_keyword and find_word_type both go through match_keyword; the table's keys are lower-case (C02.R1)")
+    rep.rule("C15.R4", "one notion of letter case: every case classification or conversion in src/frontend and src/exec (is_uppercase, "
+             "is_lowercase, to_lowercase, ...) is the Unicode function of char / str; an ASCII-only variant makes a name or keyword "
+             "with a non-ASCII capital behave differently from its re-cased spelling")
+    rep.rule("C15.R5", "who may compare names: the derived (spelling-sensitive) ==, ordering and hashing of VariableName / SimpleIdentifier / "
+             "CommonIdentifier / ProperIdentifier / Identifier is reached, in the monomorphic call graph, only from the symbol-table "
+             "lookups (whose keys are case-folded first, R1) and from the linter's repeated-mention pass; any other code comparing "
+             "names compares raw spellings, so re-casing one mention changes what it decides")
+    case_and_compare(ctx)
     # ---- R1
     n = 0
     for fn in F.all_bodies(tests=False):
@@ -187,3 +195,67 @@ def c15(ctx):
         cs = [bi for bi, t in fn.calls() if callee_def(t) == "frontend::lexer::match_keyword"]
         ok = len(cs) == 1 and fn.dominates(cs[0], fn.return_blocks()[0])
         rep.ob("C15.R3", "goes-through-match_keyword::" + name, ok, "" if ok else "%s does not classify every word with match_keyword" % name, fn.loc(), how="match_keyword on every path")
+
+
+
+NAME_TYPES = ("VariableName", "SimpleIdentifier", "CommonIdentifier", "ProperIdentifier", "Identifier")
+MAY_COMPARE = (
+    ("<std::collections::HashMap<T, exec::sym_table::SymTableEntry> as exec::sym_table::Lookup<T>>::", "symbol-table map: keys are case-folded before every operation (C15.R1)"),
+    ("<std::collections::BTreeMap<frontend::ast::ProperIdentifier, exec::sym_table::SymTableEntry> as exec::sym_table::Lookup<frontend::ast::ProperIdentifier>>::", "symbol-table map: keys are case-folded before every operation (C15.R1)"),
+    ("linter::passes::missed_pronoun::MissedPronounPassImpl::match_or_update", "the linter's repeated-mention rule is about spellings (C19)"),
+)
+
+
+def case_and_compare(ctx):
+    import re
+    F, rep = ctx.F, ctx.rep
+    # ---- R4
+    n = 0
+    for fn in F.all_bodies(tests=False):
+        if not (fn.file.startswith("src/frontend/") or fn.file.startswith("src/exec/")):
+            continue
+        for bi, t in fn.calls():
+            cal = t["callee"]
+            nm = cal.get("name") or ""
+            if cal.get("local") or "indirect" in cal or not re.search(r"(upper|lower)case|ignore_ascii_case", nm):
+                continue
+            n += 1
+            d = cal.get("def") or ""
+            ok = "ascii" not in nm and (d.startswith("std::char::methods::<impl char>::") or d.startswith("std::str::<impl str>::") or d.startswith("alloc::str::<impl str>::"))
+            rep.ob("C15.R4", "case-function::%s::%s" % (common.top_fn(F, fn).path, nm), ok,
+                   "" if ok else "%s classifies / converts letter case with %s: a non-ASCII letter is treated differently from its re-cased spelling" % (common.top_fn(F, fn).path, d),
+                   fn.loc(t["line"]), how="Unicode " + nm)
+    rep.floor("C15.R4", n, 12, "case classifications / conversions")
+    # ---- R5
+    targets = [i for i, inst in enumerate(F.insts)
+               if any(("<frontend::ast::%s as std::%s" % (nt, tr)) in inst.def_ for nt in NAME_TYPES for tr in ("cmp::PartialEq>", "hash::Hash>", "cmp::Ord>", "cmp::PartialOrd>"))]
+    rev = {}
+    for i, inst in enumerate(F.insts):
+        for c in inst.calls:
+            rev.setdefault(c[1], set()).add(i)
+    m = 0
+    for tgt in targets:
+        seen = set()
+        st = [tgt]
+        callers = set()
+        while st:
+            x = st.pop()
+            for p in rev.get(x, ()):
+                if p in seen:
+                    continue
+                seen.add(p)
+                pi = F.insts[p]
+                f = F.fn(pi.def_)
+                if pi.local and f is not None and not f.is_derived():
+                    if not f.in_test_file():
+                        callers.add(f)
+                else:
+                    st.append(p)
+        what = F.insts[tgt].def_
+        for f in sorted(callers, key=lambda x: x.path):
+            m += 1
+            why_ok = next((r for pref, r in MAY_COMPARE if f.path.startswith(pref)), None)
+            rep.ob("C15.R5", "compares-names::%s::%s" % (common.top_fn(F, f).path, what.split(" as ")[0].rsplit("::", 1)[-1] + "::" + what.rsplit("::", 1)[-1]), why_ok is not None,
+                   "" if why_ok else "%s reaches %s: it compares names by their raw spelling, so two mentions that differ only in letter case are different names here and the same name in the symbol table" % (f.path, what),
+                   f.loc(), how=why_ok)
+    rep.floor("C15.R5", m, 10, "(caller, comparison) pairs")
